@@ -333,6 +333,28 @@ def generate(template_path, with_mutants=False):
             if any(f.mutants for f in ex.fns):
                 mutant_sites.append((len(out), ex, r["text"], infos))
         else:
+            if ex.opts.get("clone") == "spec":
+                # E2: `.clone()` gets the specification "result == self" only for types whose Clone is derived in /repo
+                if "Clone" not in r.get("derives", []):
+                    raise Undecided(f"lost anchor: {ex.name} no longer derives Clone in {ex.file}; clone=spec refused")
+                tail = (f"// TRUSTED[derive-clone-{ex.name}]: #[derive(Clone)] in /repo ({ex.file}) yields a value equal to the original\n"
+                        f"impl Clone for {ex.name} {{\n    #[verifier::external_body]\n    fn clone(&self) -> (r: Self)\n        ensures r == *self,\n    {{ unimplemented!() }}\n}}\n")
+                text = text + tail
+                ctext = ctext + tail
+            if ex.opts.get("hash") == "derived":
+                if not {"Hash", "Eq", "PartialEq"} <= set(r.get("derives", [])):
+                    raise Undecided(f"lost anchor: {ex.name} no longer derives Hash+Eq in {ex.file}; hash=derived refused")
+                tail = (f"// TRUSTED[derive-hash-{ex.name}]: #[derive(Hash, PartialEq, Eq)] in /repo ({ex.file}) are consistent (equal values hash equally)\n"
+                        f"pub axiom fn axiom_key_model_{ex.name}()\n    ensures vstd::std_specs::hash::obeys_key_model::<{ex.name}>();\n")
+                text = text + tail
+                ctext = ctext + tail
+            if ex.opts.get("eq") == "structural":
+                if "PartialEq" not in r.get("derives", []):
+                    raise Undecided(f"lost anchor: {ex.name} no longer derives PartialEq in {ex.file}; eq=structural refused")
+                tail = (f"// TRUSTED[derive-partialeq-{ex.name}]: #[derive(PartialEq)] in /repo ({ex.file}) is structural equality\n"
+                        f"pub axiom fn axiom_structural_eq_{ex.name}()\n    ensures structural_eq::<{ex.name}>();\n")
+                text = text + tail
+                ctext = ctext + tail
             g.items.append({"name": ex.name, "kind": ex.kind, "file": ex.file,
                             "hash_repo_tokens": r["hash_before"], "hash_after_rules": r["hash_after"]})
         hdr = f"// >>> vx: {ex.kind} {ex.name}  (extracted from {ex.file} on this run)"
